@@ -326,6 +326,11 @@ func Run(o lib.Opts) {
 		{Kind: "search", Host: Plat{OS: "windows", Arch: "amd64", OSVer: "10.0.17763.1"}, List: []Plat{{OS: "linux", Arch: "amd64"}, {OS: "windows", Arch: "amd64", OSVer: "10.0.17763.2"}, {OS: "windows", Arch: "amd64", OSVer: "10.0.14393.5"}}, Perms: [][]int{{2, 1, 0}, {1, 0, 2}}},
 		{Kind: "search", Host: Plat{OS: "darwin", Arch: "arm64"}, List: []Plat{{OS: "linux", Arch: "arm64"}, {OS: "darwin", Arch: "arm64"}}, Perms: [][]int{{1, 0}}},
 		{Kind: "search", Host: Plat{OS: "freebsd", Arch: "amd64", OSVer: "1"}, List: []Plat{{OS: "freebsd", Arch: "amd64", OSVer: "1.5"}, {OS: "freebsd", Arch: "amd64", OSVer: "1"}, {OS: "freebsd", Arch: "amd64", OSVer: "1.7"}}, Perms: [][]int{{2, 1, 0}}},
+		// minimised from thorough seed 2 (fixed: DescriptorListSearch took no entry that was not Better than the zero platform)
+		{Kind: "search", Host: Plat{Variant: "5"}, List: []Plat{{}}},
+		{Kind: "search", Host: Plat{Variant: "5"}, List: []Plat{{Nil: true}, {}, {Variant: "v-1"}, {Variant: "6", OSVer: "1.x"}, {OS: "macos", Arch: "386", Variant: "9"}}, Perms: [][]int{{2, 0, 4, 3, 1}, {1, 4, 3, 0, 2}}},
+		{Kind: "search", Host: Plat{OS: "darwin"}, List: []Plat{{OS: "linux", OSVer: "1.5"}, {OS: "linux"}}, Perms: [][]int{{1, 0}}},
+		{Kind: "search", Host: Plat{OS: "windows"}, List: []Plat{{OS: "linux"}}},
 		{Kind: "parse", Str: "linux/aarch64/v8"}, {Kind: "parse", Str: "linux/arm/7"}, {Kind: "parse", Str: "armhf"}, {Kind: "parse", Str: "linux/x86_64/v1"},
 	}
 	all := fixed
